@@ -54,12 +54,18 @@ def s1(ck, an):
     for short in ("FutureChain._lead_contract_idx", "FutureChain.lead_contract"):
         f2 = an.fa(short)
         p = f2.f.params[1]
-        # the time used is the argument, or the simulation clock when it is None: value id of `now` where the function returns
+        # the time the lead is resolved against is the argument, or the simulation clock when it is None: read off the value
+        # returned (not off a local's name: the default may be applied in a helper or in an expression)
         rets_ = returns_in(f2)
-        at_ = f2.node_of(rets_[0]).id if rets_ else f2.cfg.entry.id
-        used = f2.sym.ev(ast.Name(id=p, ctx=ast.Load()), at_)
-        ok = used == specv(f2, f"self.now if {p} is None else {p}") or (short.endswith("lead_contract") and used in (specv(f2, f"self.now if {p} is None else {p}"), Poly.atom(p)))
-        ck.check(ok, "ARGFLOW", "S1.now-defaults-to-clock", f2.f.short, f2.f.loc, "`now` defaults to the simulation clock only when it is not given", f"`{p}` is {used.key()[:120]} when the lead is resolved",
+        got_ = [f2.sym.canon(r_.value, f2.node_of(r_).id) for r_ in rets_ if r_.value is not None]
+        dflt = f"(self.now if {p} is None else {p})"
+        if short.endswith("_lead_contract_idx"):
+            wants_ = [f2.sym.canon(ast.parse(f"{b}(self._last_trading_dates, {dflt}) + self._month", mode="eval").body, f2.cfg.entry.id) for b in ("bisect_right", "bisect.bisect_right")]
+        else:
+            m_ = f2.f.params[2]
+            wants_ = [f2.sym.canon(ast.parse(f"self.contracts[self._lead_contract_idx({a_}) + {m_}]", mode="eval").body, f2.cfg.entry.id) for a_ in (dflt, p)]     # _lead_contract_idx applies the same default itself
+        ok = len(got_) == 1 and got_[0] in wants_
+        ck.check(ok, "ARGFLOW", "S1.now-defaults-to-clock", f2.f.short, f2.f.loc, "`now` defaults to the simulation clock only when it is not given", f"{f2.f.short} returns {[g[:160] for g in got_]}; specified {wants_[0][:160]}",
                  construct="if now is None: now = self.now")
         w = [e for e in f2.effects() if e.kind in "WMD" and e.owner in ("FutureChain", "?", "class:FutureChain")]
         ck.check(not w, "EFFECT", "S1.lead-not-cached", f2.f.short, f2.f.loc, "the lead contract is recomputed on every call (nothing is stored)",
